@@ -67,7 +67,7 @@ def regen(names=None):
 # --------------------------------------------------------------------------- build
 def ensure_makefile():
     files = []
-    for d in ("lib", "genP", "genR", "genQ", "model", "proofs", "props"):
+    for d in ("lib", "genP", "genR", "genQ", "genX", "model", "proofs", "props"):
         p = os.path.join(COQ, d)
         if os.path.isdir(p):
             files += sorted(os.path.join(d, f) for f in os.listdir(p) if f.endswith(".v"))
@@ -126,7 +126,7 @@ def compile_props(pid, timeout=600):
 def audit_sources():
     """No Admitted/admit/Axiom/Parameter/...; Variable/Hypothesis/Context only inside sections."""
     problems = []
-    for d in ("lib", "genP", "genR", "genQ", "model", "proofs", "props"):
+    for d in ("lib", "genP", "genR", "genQ", "genX", "model", "proofs", "props"):
         p = os.path.join(COQ, d)
         if not os.path.isdir(p):
             continue
